@@ -165,6 +165,22 @@ pub struct Presenter<'t, 'd, 'e> {
 	pub node_counter: usize,
 	/// description of the mutation applied, if any
 	pub mutation: Option<String>,
+	/// C13: force order / omission of the n-th record visited
+	pub forced: Option<ForcedRecord>,
+	pub record_counter: usize,
+	/// (node index, number of fields, positions of nullable fields holding null) per record visited
+	pub records_seen: Vec<(usize, usize, Vec<usize>)>,
+}
+
+#[derive(Clone, Debug)]
+pub struct ForcedRecord {
+	pub target: usize,
+	/// presentation order: indices into the schema's field list
+	pub order: Vec<usize>,
+	/// omit these schema field indices (only honoured for nullable fields holding null)
+	pub omit: Vec<usize>,
+	/// 0 struct, 1 map with serialize_entry, 2 map with key-then-value
+	pub style: u8,
 }
 
 pub fn decimal_to_string(unscaled: i128, scale: u32) -> String {
@@ -236,7 +252,7 @@ pub fn union_unambiguous_by_type(env: &Env, branches: &[MSchema]) -> bool {
 
 impl<'t, 'd, 'e> Presenter<'t, 'd, 'e> {
 	pub fn new(tape: &'t mut Tape<'d>, env: &'e Env<'e>, mode: Mode) -> Self {
-		Presenter { tape, env, mode, cells: Vec::new(), needs_slow_seq_bytes: false, type_directed_unions: 0, named_unions: 0, omitted_fields: 0, reordered_records: 0, mutate_at: None, node_counter: 0, mutation: None }
+		Presenter { tape, env, mode, cells: Vec::new(), needs_slow_seq_bytes: false, type_directed_unions: 0, named_unions: 0, omitted_fields: 0, reordered_records: 0, mutate_at: None, node_counter: 0, mutation: None, forced: None, record_counter: 0, records_seen: Vec::new() }
 	}
 
 	fn cell(&mut self, kind: &str, call: &str) {
@@ -619,6 +635,40 @@ impl<'t, 'd, 'e> Presenter<'t, 'd, 'e> {
 					};
 					fps.push((intern(fname), p, nullable_null));
 				}
+				let rec_idx = self.record_counter;
+				self.record_counter += 1;
+				self.records_seen.push((my_idx, fps.len(), fps.iter().enumerate().filter(|(_, f)| f.2).map(|(i, _)| i).collect()));
+				if let Some(fr) = self.forced.clone() {
+					if fr.target == rec_idx && fr.order.len() == fps.len() {
+						let mut out: Vec<(&'static str, P)> = Vec::new();
+						for &i in &fr.order {
+							let (n, p, nn) = &fps[i];
+							if *nn && fr.omit.contains(&i) {
+								self.omitted_fields += 1;
+								continue;
+							}
+							out.push((*n, p.clone()));
+						}
+						if fr.order.iter().enumerate().any(|(a, b)| a != *b) {
+							self.reordered_records += 1;
+						}
+						let sname = intern(split_fullname(rname).1);
+						return match fr.style {
+							0 => {
+								self.cell("record", "struct");
+								P::Struct(sname, out)
+							}
+							1 => {
+								self.cell("record", "map(entry)");
+								P::Map(Some(out.len()), out.into_iter().map(|(k, v)| (P::Str(k.to_string()), v)).collect(), true)
+							}
+							_ => {
+								self.cell("record", "map(kv)");
+								P::Map(None, out.into_iter().map(|(k, v)| (P::Str(k.to_string()), v)).collect(), false)
+							}
+						};
+					}
+				}
 				let mut out: Vec<(&'static str, P)> = Vec::new();
 				let omit_allowed = !natural_only;
 				for (n, p, nn) in fps {
@@ -815,6 +865,15 @@ impl<'t, 'd, 'e> Presenter<'t, 'd, 'e> {
 					4 => (P::I64(-1), "enum-index-out-of-range/integer".into()),
 					_ => (P::U64(n as u64 + 1000), "enum-index-out-of-range/integer".into()),
 				})
+			}
+			(Kind::Bytes, MValue::Bytes(b)) => {
+				// a sequence presented for bytes with one element that is not a byte
+				self.needs_slow_seq_bytes = true;
+				let mut items: Vec<P> = b.iter().take(40).map(|x| P::U8(*x)).collect();
+				let at = self.tape.below(items.len() + 1);
+				items.insert(at, if self.tape.bool() { P::U16(300) } else { P::I8(-1) });
+				let len = if self.tape.bool() { None } else { Some(items.len()) };
+				Some((P::Seq(len, items), "bytes-seq-element-not-a-byte".into()))
 			}
 			(Kind::String, _) => Some((P::Bytes(self.tape.pick(&[vec![0xffu8], vec![b'a', 0x80], vec![0xc3], vec![0xed, 0xa0, 0x80], vec![0xf8, 0x88, 0x80, 0x80, 0x80]]).clone()), "string-not-utf8/bytes".into())),
 			(Kind::Fixed(size), MValue::Fixed(b)) => {
